@@ -5,16 +5,25 @@
 (C) model inspector_okind / inspect_member   vs  ObjectNode(obj, name, parent).kind and Inspector.inspect on a zoo of live objects
     model alias_target_path / inspect_child  vs  ObjectNode.alias_target_path / the member the Inspector created (generated packages, stdlib)
     model visitor_member / visit_importfrom  vs  the member the Visitor created for each generated definition / import statement
+    model visit_attribute / inspector_xmember vs the two members of names bound by assignment / annotated names
+    model visit_import / inspect_import      vs  the two members of `import a.b.c [as x]` statements (self imports, built-in _x modules)
+    model static_bases / inspector_bases     vs  the resolved bases of the visited class / the bases of the inspected class
+    model griffe_star                        vs  is_wildcard_exposed over the source module's members;  griffe_binder vs the loaded member
     model relative_to_absolute               vs  _griffe.agents.nodes.imports.relative_to_absolute (every depth x level, incl. beyond top)
-    model static_final                       vs  Alias.final_target.path through generated re-export chains
+    model static_final                       vs  Alias.final_target.path through generated re-export chains (wildcard hops included)
     model visitor_parameters / inspector_parameters vs Function.parameters of the two loads
     model static_doc / dynamic_doc           vs  Docstring.value of the two loads;  model same_components vs runtime._same_components
-(O) model runtime_features(defform)          vs  real introspection of the generated code (inspect.*, isinstance, callable)
+(O) model observe(pyobj)                     vs  inspect.* / callable / isinstance on live objects of every constructor (zoo + every member)
+    model runtime_features(defform)          vs  real introspection of the generated code
+    model cpython_bases                      vs  cls.__bases__ of every generated class; generated base denotations vs the live heads
+    model cpython_star / cpy_binder          vs  executing `from m import *` / importing the module
     model cpy_from_module                    vs  importlib.util.resolve_name;  cpy_chain_ok vs the package actually importing
     model inspect_signature                  vs inspect.signature (class methods: of __func__);  model cleandoc vs inspect.cleandoc
 direct: griffe.load(pkg, allow_inspection=False) vs griffe.load(pkg, force_inspection=True) on the same generated package: member names,
     kinds, shared labels, parameters, base class paths, docstrings, alias final targets at every nesting level, modulo the allowed
-    differences encoded in compare_trees(); anything else must satisfy a known-gap classifier (F4, F6) or is a VIOLATION.
+    differences encoded in compare_trees(); the bases of every class three ways (static, inspected, cls.__bases__); which statement binds a
+    name next to wildcard imports (static vs imported module).  Anything else must satisfy a known-gap classifier confirmed by the model's
+    verdict (F4, F6, F8, F9, F10) or is a VIOLATION.
     corpus/C17: the witnesses of the repaired defects F1 F2 F3 F5 F7, on which the two agents must now agree completely.
 """
 from __future__ import annotations
@@ -34,38 +43,61 @@ from pathlib import Path
 from harness.translate import c17_tables
 
 ID = "C17"
-LEVEL_TEXT = ("Theorems: for each of the 24 definition forms (finite, listed) the member the Inspector derives from what CPython reports has the "
-              "same Griffe kind and the same shared labels as the Visitor's; the ladder's kind always has a handler (every observation "
-              "vector); relative_to_absolute equals importlib's name resolution for every module depth and level, and clamps where CPython "
-              "refuses; through re-export chains of every length the static aliases end where the Inspector's alias points (modulo gap F4, "
-              "same module up to underscores); imported plain values are attributes on the dynamic side (stated exception); the two agents "
-              "build the same parameter list (names, order, kinds, annotations, defaults, required-ness) for every signature length (via "
-              "C02), and both agree with CPython's binder on required-ness; both hand the raw docstring to Docstring (cleaned once); "
-              "_pick_member drops special names, type/object, inherited names and real ancestors only. The kind ladder, handler table, "
-              "decorator tables and _kind_map are regenerated from the source on every run; the model is tied to both agents on generated "
-              "packages and live objects, and the two agents are compared directly on every package.")
-LEVEL_NOTE = ("Trusted: Coq kernel, extraction, translator harness/translate/c17_tables.py, the harness's independent computation of the primitive "
-              "observations of a live object, CPython's introspection / importlib / inspect.cleandoc as authorities. inspect.getmembers and "
-              "vars() are CPython's. Base classes are compared only by the direct static-vs-dynamic evaluation (no theorem: name resolution "
-              "of base expressions is C04's subject). The static_final chain model assumes the loaded tree holds exactly the generated "
-              "members. Annotation and default expression text are opaque atoms (C03); setter/deleter labels are C02's. F6 (self-import in "
-              "a package __init__) has a harness classifier but no Coq counterpart.")
+LEVEL_TEXT = ("Theorems (36, all closed under the global context). Kinds: for each of the 24 definition forms the member the Inspector derives from "
+              "what CPython reports has the same Griffe kind and shared labels as the Visitor's -- stated both over the tabulated observations and "
+              "over observations DERIVED from a small object semantics stated once (attribute access on a class/module, inspect.is*, callable, what "
+              "each statement stores; C17_observations_derived proves the table is the derived one); the ladder always has a handler; the "
+              "Inspector's member is a plain attribute iff the ladder ends on ATTRIBUTE (every observation vector), hence NAME = <value> agrees "
+              "exactly when the value is plain (equivalence; F9 = the negation), annotated names with a value agree, without a value they are "
+              "static-only and fall under 'instance attributes' exactly in a class body without ClassVar (F10 otherwise). Imports: "
+              "relative_to_absolute = importlib for every depth/level, clamps where CPython refuses; re-export chains of every length end where the "
+              "Inspector's alias points (modulo F4); imported plain values are attributes (stated exception); `import a.b.c [as x]` gives the "
+              "same alias on both sides unless it binds the module it is written in (F6, exact) (built-in `_x` modules and underscore twins included since the repairs). Wildcard imports: "
+              "the names expand_wildcards brings are the names CPython's import * binds (every member list, every __all__), and for every "
+              "interleaving of definitions and wildcard imports the surviving binder is the same statement. Bases: for every class statement in "
+              "any nesting of class bodies with any number of written bases Name / Name[...] / root.attr[...], each well bound (defined in an "
+              "enclosing scope, imported through a chain of any length, external, builtin), the resolved static base paths equal the "
+              "Inspector's, which are CPython's __bases__ without object -- unless class creation rewrites the bases through __mro_entries__ "
+              "(F8: `rewrites`, decidable; a syntactic criterion for its absence is proved; two refutation witnesses); the path stored for a base "
+              "name is the binding CPython's scoping finds (C04's theorem instantiated on class-statement scopes). Parameters (every signature, via "
+              "C02), required-ness = CPython's binder, docstrings cleaned once, _pick_member. Ladder, handlers, decorator tables, _kind_map are "
+              "regenerated from the source every run; every model part is tied to both agents on generated packages, live objects and stdlib "
+              "modules, and the two agents and CPython (__bases__, import *, namespaces) are compared directly on every package.")
+LEVEL_NOTE = ("Trusted: Coq kernel, extraction, translator harness/translate/c17_tables.py; the object semantics of Model/C17_pyobj.v (checked "
+              "against live objects of every constructor: zoo + every generated member, by an independent Python evaluation of the 14 "
+              "observations); typing's __mro_entries__ as modelled in Model/C17_bases.v for CPython 3.12 (checked against cls.__bases__ of every "
+              "generated class); CPython's introspection / importlib / inspect.cleandoc / import * as authorities. inspect.getmembers and vars() "
+              "are CPython's. The well_bound hypothesis of the bases theorem is discharged per binding kind by the alias-chain theorem and C04's "
+              "resolution theorem, not by one closed composition over whole programs. static_final assumes the loaded tree holds exactly the "
+              "generated members. Wildcard expansion is modelled per source module (names) and per importing body (binder), not the loader's "
+              "recursion over modules (C05/C06/C18). Annotation/default expression text is opaque (C03).")
 MODEL = ("Model.C17_run", "run_C17_all")
-COQ_TARGETS = ["Proofs/C17_agents.vo", "Proofs/C17_bases.vo", "Model/C17_run.vo"]
+COQ_TARGETS = ["Proofs/C17_agents.vo", "Proofs/C17_bases.vo", "Proofs/C17_pyobj.vo", "Proofs/C17_star.vo", "Model/C17_run.vo"]
 TRANSLATOR_NAME = "harness/translate/c17_tables.py"
-RULE = ("seeded random importable packages (7-9 modules over 3 nesting levels, every definition form, signatures from C02's count vectors, "
-        "1-2 level inheritance incl. imported bases, docstrings of random indentation shapes, absolute/relative/as-named imports of classes, "
-        "functions, coroutines, modules and values from lower modules incl. re-export chains, class-body imports, __all__, optional "
-        "underscore twin modules, optional modules named like the stdlib / top-level module they import from, quoted annotations that do not "
-        "resolve at runtime incl. TYPE_CHECKING-only imports and nested-class forward references), loaded statically and dynamically; plus a zoo of live objects for every ladder rung; exhaustive "
+RULE = ("seeded random importable packages (7-11 modules over 3 nesting levels, every definition form, signatures from C02's count vectors, "
+        "plain / multiple / imported / builtin / explicit-object bases, generic and protocol hierarchies (Generic[T], typing.Generic[T], "
+        "Protocol, Protocol[T], G, G[int], G[T]+Generic[T], Generic[T]+G[T], P+Protocol, List[int], Dict[...], list[int]) through names and "
+        "attribute chains, nested classes with bases found in enclosing scopes, names bound by assignment to lambdas / partial objects / "
+        "functions / classes, annotated names with and without value and with ClassVar, docstrings of random indentation shapes, "
+        "absolute/relative/as-named imports of classes, functions, coroutines, modules and values incl. re-export chains, wildcard imports "
+        "(one or two per module, sources with and without __all__, transitive), class-body imports, `import x.y`, self imports, imports of "
+        "built-in underscore modules, __all__, optional underscore twin modules, modules named like the stdlib / top-level module they import "
+        "from, quoted annotations that do not resolve at runtime), loaded statically and dynamically and imported; a zoo of live objects for "
+        "every ladder rung and every object constructor; 150+ small packages interleaving definitions and wildcard imports; exhaustive "
         "relative-import grid depth<=4 x level<=5; random docstring line lists; random dotted paths. non-trivial package = has at least one "
-        "import chain and one class with methods; distinct by rendered source")
+        "import chain; distinct by rendered source")
 TRUSTED = ["translator harness/translate/c17_tables.py (whitelisted AST shapes of runtime.py / inspector.py / visitor.py / enumerations.py; fails closed)",
-           "harness prims_of(): independent evaluation of the 14 primitive observations on a live object"]
-ASSUMPTIONS = ["generated modules bind plain literal values, def/async def, classes, and import statements only (no decorators other than "
-               "staticmethod/classmethod/property/cached_property/setter, no annotation-only attributes, no lambdas/partials as module constants)",
+           "harness prims_of(): independent evaluation of the 14 primitive observations on a live object; pyobj_of(): classification of a live "
+           "namespace entry by its exact type into the model's object universe",
+           "Model/C17_pyobj.v (object semantics) and Model/C17_bases.v (__mro_entries__ of typing, CPython 3.12): stated once, tied by oracle checks"]
+ASSUMPTIONS = ["generated modules bind literal values, def/async def, lambdas, partial objects, classes and import statements only (decorators: "
+               "staticmethod/classmethod/property/cached_property/setter)",
                "docstring content atoms carry no trailing whitespace; tabs are not generated",
-               "base classes are classes of the generated package (or Exception, compared modulo the 'builtins.' prefix)"]
+               "base classes are classes of the generated package, typing.Generic/Protocol/List/Dict, list, object or Exception; NamedTuple and "
+               "TypedDict bases (F8 family, many injected members) are covered by the finding's witness only",
+               "wildcard imports read from plain modules (not packages): submodule exposure is C05/C18's subject",
+               "`object` as a base is compared as absent (whether it was written is knowable to the static agent only); names stored by "
+               "typing.Protocol / abc machinery in classes below Protocol are treated like interpreter-provided attributes (exact table PROTOCOL_PROVIDED)"]
 
 PRIM_NAMES = ["ismodule", "isclass", "parent_is_class", "dict_static", "dict_classm", "cached", "isfunctype", "isbuiltin", "iscoroutine",
               "ismethoddescriptor", "isfunction", "callable", "isgetset", "isproperty"]
@@ -271,6 +303,9 @@ class Gen:
         self.extra_tops = []
         self.n_annotated = 0
         self.ann_pool = ["Missing", "N0"]
+        self.ns = {}           # module -> {name bound when its body has run: {"cat": "thing" | "ext" | "assigned" | "module-import", ...}}
+        self.all_of = {}       # module -> its __all__ (list) or None
+        self.static_only = {}  # module -> names the visitor records although nothing binds them (annotation-only)
         self.cinfo = {}        # (defining module, qualified name) -> {"params", "gensub", "is_protocol", "proto_desc"}
         self.ext = {}          # module -> {name bound by an import from outside the package: dotted target}
         self.mods = self.layout()
@@ -356,6 +391,13 @@ class Gen:
         self.ann_pool = ["Missing", "N0"]
         guarded = []
         names_in_order = [m for m, _ in self.mods]
+        # wildcard imports are the first statements of the module: whatever the module binds itself afterwards wins on both sides
+        stars = []
+        star_srcs = [m for m, i in self.mods[: names_in_order.index(mod)] if not i and m in self.ns and not same_components(m, mod)]
+        if star_srcs and rng.random() < 0.22:
+            for src in rng.sample(star_srcs, min(len(star_srcs), rng.choice([1, 1, 2]))):
+                stmt, imp = self.render_import(mod, init, src, "*", None)
+                stars.append((src, stmt, imp))
         lower_classes = [(src, n) for src in names_in_order[: names_in_order.index(mod)]
                          for n, o in self.exports[src].items() if o["kind"] == "class" and not o["chain"]]
         if lower_classes and rng.random() < 0.3:
@@ -411,19 +453,114 @@ class Gen:
             body += lines
             local_classes.append((name, self.cinfo[(mod, name)]))
             exports[name] = {"kind": "class", "defmod": mod, "defname": name, "chain": []}
+        # names bound by assignment to something that is not a plain value; annotated names with and without a value
+        self.static_only[mod] = []
+        funcs = [(n, o) for n, o in exports.items() if o["kind"] in ("func", "asyncfunc") and not o["chain"]]
+        if rng.random() < 0.15:
+            kinds = ["lambda", "ann-unbound", "ann-bound"] + (["partial", "funcalias"] if funcs else []) + (["clsalias"] if local_classes else [])
+            for k, kind in enumerate(rng.sample(kinds, rng.randint(1, min(3, len(kinds))))):
+                name = f"x{k}{tag}"
+                if kind == "lambda":
+                    text, obj = f"{name} = lambda a, b=1: a", ["function", 0]
+                elif kind == "partial":
+                    fn, fo = rng.choice(funcs)
+                    need_functools = True
+                    text, obj = f"{name} = functools.partial({fn})", ["partial", ["function", 1 if fo["kind"] == "asyncfunc" else 0]]
+                elif kind == "funcalias":
+                    fn, fo = rng.choice(funcs)
+                    text, obj = f"{name} = {fn}", ["function", 1 if fo["kind"] == "asyncfunc" else 0]
+                elif kind == "clsalias":
+                    text, obj = f"{name} = {rng.choice(local_classes)[0]}", ["class"]
+                elif kind == "ann-unbound":
+                    body.append(f"{name}: int")
+                    self.meta[f"{mod}.{name}"] = {"form": ["annotated", "mod", 0, 0]}
+                    self.static_only[mod].append(name)
+                    continue
+                else:
+                    body.append(f"{name}: int = 3")
+                    self.meta[f"{mod}.{name}"] = {"form": ["annotated", "mod", 0, 1]}
+                    exports[name] = {"kind": "value", "defmod": mod, "defname": name, "chain": []}
+                    continue
+                body.append(text)
+                self.meta[f"{mod}.{name}"] = {"form": ["assigned", "mod", obj], "text": text}
+                exports[name] = {"kind": "assigned", "obj": obj, "defmod": mod, "defname": name, "chain": [], "special": True}
+        lower = names_in_order[: names_in_order.index(mod)]
+        if not init and rng.random() < 0.05:
+            # `import <this module> as me`: binds the module it is written in (F6, general form)
+            body.append(f"import {mod} as me_{tag}")
+            self.meta[f"{mod}.me_{tag}"] = {"form": "selfimport", "import_stmt": [mod.split("."), [f"me_{tag}"]]}
+        if rng.random() < 0.06:
+            # a built-in module whose name starts with an underscore (aliased under its own name since the repair of F11)
+            bm, asn = rng.choice([("_io", None), ("_thread", f"th_{tag}"), ("_operator", None), ("_functools", f"ft_{tag}")])
+            body.append(f"import {bm}" + (f" as {asn}" if asn else ""))
+            self.meta[f"{mod}.{asn or bm}"] = {"form": "builtinimport", "import_stmt": [[bm], [asn] if asn else []]}
+            self.ext[mod][asn or bm] = bm
+        all_names = None
         if rng.random() < 0.4:
             names = [n for n in exports if not n.startswith("_")]
-            chosen = sorted(rng.sample(names, min(len(names), rng.randint(1, 3))))
-            body.append(f"__all__ = {chosen!r}")
-            self.meta[f"{mod}.__all__"] = {"form": ["value", "mod"], "value": repr(chosen)}
+            all_names = sorted(rng.sample(names, min(len(names), rng.randint(1, 3))))
+            body.append(f"__all__ = {all_names!r}")
+            self.meta[f"{mod}.__all__"] = {"form": ["value", "mod"], "value": repr(all_names)}
+        L += [stmt for _, stmt, _ in stars]
         if need_functools:
             L.append("import functools")
             self.meta[f"{mod}.functools"] = {"form": "extimport", "target": "functools"}
+            self.ext[mod]["functools"] = "functools"
         L += guarded
         L += body
         self.files[self.path_of(mod, init)] = "\n".join(L) + "\n"
         self.files_mods = {m for m, _ in self.mods}
+        # the namespace of this module when its body has run: its own names ...
+        ns = {}
+        for n, o in exports.items():
+            if o.get("special"):
+                ns[n] = {"cat": "assigned", "obj": o["obj"], "source": f"{mod}.{n}"}
+            elif o.get("via_import"):
+                ns[n] = {"cat": "module-import", "target": ((o["defmod"] + ".") if o["defmod"] else "") + o["defname"]}
+            else:
+                ns[n] = {"cat": "thing", "o": o}
+        for n, t in self.ext[mod].items():
+            ns[n] = {"cat": "ext", "target": t}
+        if f"{mod}.me_{tag}" in self.meta:
+            ns[f"me_{tag}"] = {"cat": "module-import", "target": mod}
+        own = set(ns) | set(self.static_only[mod]) | {k[len(mod) + 1:] for k in self.meta if k.startswith(mod + ".") and "." not in k[len(mod) + 1:]}
+        # ... and what the wildcard imports brought and nothing replaced afterwards (a later wildcard replaces an earlier one)
+        self.meta[mod]["stars"] = []
+        for src, stmt, imp in stars:
+            brought = self.star_names(src)
+            self.meta[mod]["stars"].append({"src": src, "imp": imp, "init": init, "names": brought})
+            for n in brought + [x for x in self.star_static_only(src) if x not in brought]:
+                if n in own:
+                    continue
+                e = self.ns[src].get(n)
+                hop = {"mod": mod, "init": init, "imp": [imp[0], imp[1], n, []], "cur": mod, "src": src, "srcname": n}
+                if e is None:
+                    # only the visitor has this name in the source module (annotation without value)
+                    up = self.meta.get(f"{src}.{n}", {})
+                    self.meta[f"{mod}.{n}"] = {"form": "starred", "cat": "static-only", "source": up["source"] if up.get("form") == "starred" else f"{src}.{n}"}
+                    self.static_only[mod].append(n)
+                    continue
+                if e["cat"] == "thing":
+                    o = e["o"]
+                    chain = [hop] + o["chain"]
+                    self.meta.setdefault(f"{mod}.{n}", {}).update({"form": ["imported", "mod", o["kind"]], "chain": chain, "origin": o, "name": n, "star": True})
+                    exports[n] = {"kind": o["kind"], "defmod": o["defmod"], "defname": o["defname"], "chain": chain}
+                    ns[n] = {"cat": "thing", "o": exports[n]}
+                else:
+                    self.meta.setdefault(f"{mod}.{n}", {}).update({"form": "starred", **e})
+                    ns[n] = dict(e)
+        self.ns[mod] = ns
+        self.all_of[mod] = all_names
         self.exports[mod] = exports
+
+    def star_names(self, src):
+        """The names `from src import *` binds: CPython's rule on the namespace of src."""
+        al = self.all_of[src]
+        return [n for n in self.ns[src] if (n in al if al is not None else not n.startswith("_"))]
+
+    def star_static_only(self, src):
+        """Names only the visitor has in src and exposes to a wildcard import."""
+        return [n for n in self.static_only.get(src, []) if self.all_of[src] is None and not n.startswith("_")]
 
     def choose_bases(self, mod, exports, local_classes, kit):
         """Base list of a module-level class: [{"src", "expr", "val", "info"?}].  expr: ["name", n] | ["attr", root, [segs]] | ["sub", e];
@@ -526,6 +663,18 @@ class Gen:
             value = rng.choice(["1", repr("c"), "(1,)", "None"])
             L.append(f"{ind1}C0 = {value}")
             self.meta[f"{path}.C0"] = {"form": ["value", "cls"], "value": value}
+        if rng.random() < 0.1:
+            kinds = ["ann-unbound", "ann-bound", "lambda"] + (["classvar", "classvar-unbound"] if "typing" in self.ext.get(mod, {}) else [])
+            for k, kind in enumerate(rng.sample(kinds, rng.randint(1, 2))):
+                name = f"y{k}"
+                if kind == "lambda":
+                    L.append(f"{ind1}{name} = lambda self, a=1: a")
+                    self.meta[f"{path}.{name}"] = {"form": ["assigned", "cls", ["function", 0]]}
+                else:
+                    cv = kind.startswith("classvar")
+                    hv = kind in ("ann-bound", "classvar")
+                    L.append(f"{ind1}{name}: {'typing.ClassVar[int]' if cv else 'int'}" + (" = 2" if hv else ""))
+                    self.meta[f"{path}.{name}"] = {"form": ["annotated", "cls", 1 if cv else 0, 1 if hv else 0]}
         forms = ["method", "method", "async_method", "static", "async_static", "classm", "async_classm", "prop", "prop_setter", "cached", "init"]
         for i, form in enumerate(rng.sample(forms, rng.randint(1, 5))):
             name = "__init__" if form == "init" else f"m{i}"
@@ -562,13 +711,13 @@ class Gen:
                 L += [f"{ind1}@functools.cached_property", f"{ind1}def {name}(self):"] + dl + [f"{ind1}    return 1"]
                 self.meta[f"{path}.{name}"] = {"form": ["cachedprop"], "doc": dd}
         # class-body import: repeat one of this module's own from-imports inside the class
-        cands = [(n, o) for n, o in exports.items() if o["chain"] and not o.get("via_import")]
+        cands = [(n, o) for n, o in exports.items() if o["chain"] and not o.get("via_import") and not o.get("special")]
         if cands and rng.random() < 0.25:
             n, o = rng.choice(cands)
             h = o["chain"][0]
             bound = f"ci_{n}"
             if o["kind"] == "module" and same_components(f"{o['defmod']}.{o['defname']}", mod):
-                self.twin_module_in_class = True        # see classify(): F4, module variant, inside a class body
+                self.twin_module_in_class = True        # (once F4's module variant: inspect_module replaced the tree under construction)
             stmt, imp = self.render_import(mod, init, h["src"], h["srcname"], bound, force_abs=rng.random() < 0.5)
             L.append(f"{ind1}{stmt}")
             hop = {"mod": mod, "init": init, "imp": imp, "cur": path, "src": h["src"], "srcname": h["srcname"]}
@@ -634,7 +783,7 @@ class Gen:
                 # a module object: `from <parent> import <leaf> [as x]` or `import a.b.c as x`
                 parent, leaf = src.rsplit(".", 1)
                 o = {"kind": "module", "defmod": parent, "defname": leaf, "chain": []}
-                if rng.random() < 0.3 and not same_components(src, mod):
+                if rng.random() < 0.3:
                     asname = f"im_{leaf.strip('_')}{len(L)}"
                     L.append(f"import {src} as {asname}")
                     self.meta[f"{mod}.{asname}"] = {"form": ["imported", "mod", "module"], "import_stmt": [src.split("."), [asname]], "origin": o, "name": asname}
@@ -644,12 +793,10 @@ class Gen:
                 if bound in exports:
                     continue
                 if same_components(src, mod):
-                    if rng.random() < 0.8:
-                        continue
                     self.twin_module = True
                 self.add_from_import(mod, init, exports, parent, leaf, o, bound, L)
                 continue
-            cands = [(n, o) for n, o in self.exports[src].items() if not o.get("via_import") and n != "__all__"]
+            cands = [(n, o) for n, o in self.exports[src].items() if not o.get("via_import") and not o.get("special") and n != "__all__"]
             if not cands:
                 continue
             name, o = rng.choice(cands)
@@ -666,7 +813,7 @@ class Gen:
         if self.twin and mod == f"{self.pkg}.core":
             # F4 trigger: core re-exports from its underscore twin
             for name, o in list(self.exports[f"{self.pkg}._core"].items())[:3]:
-                if name == "__all__" or o.get("via_import") or f"tw_{name}" in exports:
+                if name == "__all__" or o.get("via_import") or o.get("special") or f"tw_{name}" in exports:
                     continue
                 self.add_from_import(mod, init, exports, f"{self.pkg}._core", name, o, f"tw_{name}", L, force_abs=rng.random() < 0.5)
         return L
@@ -707,25 +854,41 @@ def purge_modules(pkg):
     importlib.invalidate_caches()
 
 
+def follow_static(collection, path):
+    """A dotted path followed through the aliases of the loaded collection as far as it goes (Alias.final_target, also when an
+    alias sits at a proper prefix of the path, also when the chain leaves the loaded packages: the last target is returned).
+    Returns (path, resolved)."""
+    for _ in range(40):
+        try:
+            o = collection[path]
+        except Exception:  # noqa: BLE001
+            parts = path.split(".")
+            for k in range(len(parts) - 1, 0, -1):
+                try:
+                    q = collection[".".join(parts[:k])]
+                except Exception:  # noqa: BLE001
+                    continue
+                if q.is_alias:
+                    path = ".".join([q.target_path] + parts[k:])
+                    break
+                return path, False
+            else:
+                return path, False
+            continue
+        if not o.is_alias:
+            return o.path, True
+        path = o.target_path
+    return path, False
+
+
 def final_path(alias):
-    try:
-        return alias.final_target.path
-    except Exception as e:  # noqa: BLE001
-        return f"<unresolved>{alias.target_path}"
+    path, ok = follow_static(alias.modules_collection, alias.target_path)
+    return path if ok else f"<unresolved>{path}"
 
 
 def base_path(cls, b):
-    if isinstance(b, str):
-        p = b
-    else:
-        p = b.canonical_path
-    try:
-        o = cls.modules_collection[p]
-        if o.is_alias:
-            return final_path(o)
-        return o.path
-    except Exception:  # noqa: BLE001
-        return p
+    p = b if isinstance(b, str) else b.canonical_path
+    return follow_static(cls.modules_collection, p)[0]
 
 
 def summarize(obj):
@@ -942,7 +1105,7 @@ def check_bases_cpython(st, dy, path, diffs):
             check_bases_cpython(a, b, p, diffs)
 
 
-def classify(diff, gen, ctx):
+def classify(diff, gen, ctx, dyn_tree=None):
     """Known-gap classifiers (Python mirrors of the Coq predicates / the model's verdict). Returns a finding id or None."""
     p, what, a, b, hint = diff
     meta = gen.meta.get(p, {}) if gen is not None else {}
@@ -950,18 +1113,6 @@ def classify(diff, gen, ctx):
         cur_mod = meta["chain"][0]["mod"] if meta.get("chain") else None
         origin = meta.get("origin")
         if cur_mod and origin and cur_mod != origin["defmod"] and same_components(cur_mod, origin["defmod"]):
-            return "C17-F4"
-    if gen is not None and gen.twin_module:
-        # F4, module variant: <pkg>.core binds the module object <pkg>._core; the Inspector does not alias it (same components) and
-        # inspect_module() replaces the Module under construction: everything in <pkg>.core, and every alias into it, is affected
-        core = f"{gen.pkg}.core"
-        touched = [p] + [x.get("final", "").split(">")[-1] for x in (a, b) if isinstance(x, dict) and x.get("t") == "alias"]
-        if any(t == core or t.startswith(core + ".") for t in touched):
-            return "C17-F4"
-        # ... and when the twin module object is bound inside a class body of <pkg>.core, leaving that class makes the parent of the
-        # replacement Module (the package) the current object: the rest of core's members land in the package itself
-        if gen.twin_module_in_class and what == "only-dynamic" and p.rsplit(".", 1)[0] == gen.pkg \
-                and p.rsplit(".", 1)[1] in set(gen.exports[core]) | {"functools"} | set(gen.ext.get(core, {})):
             return "C17-F4"
     if what in ("bases", "bases-static-vs-cpython") and meta.get("bases") and gen is not None:
         # F8: class creation rewrites the written bases (__mro_entries__); the faithful model must reproduce both lists
@@ -973,10 +1124,45 @@ def classify(diff, gen, ctx):
                     return "C17-F8"
         elif rewrites_py(meta["bases"]):
             return "C17-F8"
+    have_model = ctx is not None and ctx.driver is not None
+    form = meta.get("form")
     if what == "only-static" and isinstance(a, dict) and a["t"] == "alias" and gen is not None:
-        # `import pkg.sub` inside pkg/__init__.py: the package object is skipped by _pick_member (it is its own ancestor)
-        if p == f"{gen.pkg}.{gen.pkg}" and a["target"] == gen.pkg:
-            return "C17-F6"
+        # an `import` statement that binds the module it is written in (`import pkg.sub` inside pkg/__init__.py, `import pkg.m as me`
+        # inside pkg/m.py): the object is its own ancestor and _pick_member skips it
+        stmt = meta if "import_stmt" in meta else ({"import_stmt": [[gen.pkg], []]} if p == f"{gen.pkg}.{gen.pkg}" and a["final"] == gen.pkg else None)
+        if stmt is not None:
+            if not have_model:
+                return "C17-F6" if a["final"] == p.rsplit(".", 1)[0] else None
+            out = ctx.model([import_query(gen, p, stmt)])[0]
+            if out != ["bad-input"] and out[3] == 1 and out[2] == ["nothing"] and (norm_member(out[1]) == enc_member_impl(a) or form == "starred"):
+                return "C17-F6"
+    if isinstance(form, list) and form[0] in ("assigned", "annotated") and gen is not None:
+        # F9: a name bound by assignment to a callable / class / descriptor; F10: an annotation without value, outside the
+        # "instance attribute" exception.  Both verdicts and both members must be the model's.
+        if not have_model:
+            return {"assigned": "C17-F9", "annotated": "C17-F10"}[form[0]] if what in ("kind", "alias-vs-object", "only-static") else None
+        out = ctx.model([xform_query(gen, p, form)])[0]
+        dyn = lookup_summary(dyn_tree, p.split(".")[1:]) if dyn_tree is not None else None
+        if out != ["bad-input"] and norm_member(out[2]) == enc_member_impl(dyn):
+            if form[0] == "assigned" and out[3] == 1 and what in ("kind", "alias-vs-object"):
+                return "C17-F9"
+            if form[0] == "annotated" and out[4] == 1 and what == "only-static":
+                return "C17-F10"
+    if form == "starred" and gen is not None:
+        # the same, seen through a wildcard import of the defining module
+        src_meta = gen.meta.get(meta.get("source", ""), {})
+        src_form = src_meta.get("form")
+        if meta.get("cat") == "static-only" and what == "only-static" and isinstance(src_form, list) and src_form[0] == "annotated":
+            if not have_model or ctx.model([xform_query(gen, meta["source"], src_form)])[0][4] == 1:
+                return "C17-F10"
+        if meta.get("cat") == "assigned" and isinstance(src_form, list) and what in ("alias-final-target", "alias-vs-object"):
+            if not have_model:
+                return "C17-F9"
+            out = ctx.model([xform_query(gen, meta["source"], src_form), child_query(gen, p)[0]])
+            dyn = lookup_summary(dyn_tree, p.split(".")[1:]) if dyn_tree is not None else None
+            if out[0] != ["bad-input"] and out[0][3] == 1 and isinstance(a, dict) and a.get("final") == meta["source"] \
+                    and norm_member(out[1][1]) == enc_member_impl(dyn):
+                return "C17-F9"
     return None
 
 
@@ -1051,6 +1237,79 @@ def object_node(gen, mod, rest):
     return node
 
 
+def pyobj_of(stored, depth=0):
+    """A live namespace entry -> the model's pyobj (Model/C17_pyobj.v) by its exact type, or None when it is outside that universe."""
+    if depth > 4 or hasattr(stored, "__wrapped__"):
+        return None
+    sub = lambda x: pyobj_of(x, depth + 1)
+    wrap = lambda tag, inner: None if inner is None else [tag, inner]
+    if isinstance(stored, staticmethod):
+        return wrap("staticmethod", sub(stored.__func__))
+    if isinstance(stored, classmethod):
+        return wrap("classmethod", sub(stored.__func__))
+    if isinstance(stored, functools.cached_property):
+        return wrap("cached_property", sub(stored.func))
+    if isinstance(stored, property):
+        return ["property"]
+    if isinstance(stored, types.FunctionType):
+        return ["function", 1 if stored.__code__.co_flags & inspect.CO_COROUTINE else 0]
+    if isinstance(stored, types.MethodType):
+        return wrap("boundmethod", sub(stored.__func__))
+    if isinstance(stored, type):
+        return ["class"]
+    if isinstance(stored, types.ModuleType):
+        return ["module"]
+    if isinstance(stored, types.BuiltinFunctionType):
+        return ["builtin"]
+    if isinstance(stored, (types.MethodDescriptorType, types.WrapperDescriptorType)):
+        return ["method_descriptor"]
+    if isinstance(stored, types.GetSetDescriptorType):
+        return ["getset_descriptor"]
+    if isinstance(stored, functools.partial):
+        return wrap("partial", sub(stored.func))
+    if isinstance(stored, (types.ClassMethodDescriptorType, types.MemberDescriptorType, types.MethodWrapperType)):
+        return None
+    if callable(stored):
+        return ["callable_instance"] if isinstance(getattr(type(stored), "__call__", None), types.FunctionType) else None
+    if hasattr(type(stored), "__get__") or hasattr(type(stored), "__set__"):
+        return None
+    return ["value"]
+
+
+def import_query(gen, path, meta):
+    """The model query for an `import a.b.c [as x]` statement found at member `path` (a module or class body)."""
+    name, asn = meta["import_stmt"]
+    holder = path.rsplit(".", 1)[0]
+    mod = holder
+    while mod not in gen.files_mods:
+        mod = mod.rsplit(".", 1)[0]
+    return ["importstmt", "mod" if holder == mod else "cls", mod.split("."), holder.split("."), name, asn, list(sys.builtin_module_names), 0]
+
+
+def xform_query(gen, path, form):
+    """The model query for a name bound by assignment / an annotated name at `path` (env from the live object when there is one)."""
+    holder, name = path.rsplit(".", 1)
+    try:
+        q, _ = child_query(gen, path)
+        env, hf = q[2], q[5]
+    except (KeyError, AttributeError):
+        env, hf = [1, [], [], [], []], 0
+    return ["xform", form, env, holder.split("."), name, hf]
+
+
+def child_query(gen, path):
+    """The model query for what Inspector.generic_inspect makes of the live member at `path` (and its ObjectNode)."""
+    parent, name, raw, module, mod, rest = live_lookup(path, gen)
+    prims, unwrapped = prims_of(parent, name, raw)
+    node = object_node(gen, mod, rest)
+    child_mod = module_path_of(unwrapped, module)
+    parent_mod = module_path_of(parent, module)
+    fallback = node.path[len(node.module.path) + 1:]
+    qual = getattr(unwrapped, "__qualname__", fallback)
+    env = [1, opt_path(child_mod), opt_path(parent_mod), qual.split(".") if isinstance(qual, str) else [], list(sys.builtin_module_names)]
+    return ["child", prims, env, path.rsplit(".", 1)[0].split("."), name, 1 if hasattr(unwrapped, "__file__") else 0], node
+
+
 def check_package(ctx, gen, root, st, dy, a, b):
     """(C)/(O) ties for every generated member of one loaded package."""
     q = []          # (tag, query, callback)
@@ -1070,8 +1329,6 @@ def check_package(ctx, gen, root, st, dy, a, b):
 
             def cb_doc(out, path=path, raw=raw, sa=sa, da=da):
                 ctx.count("doc_ties")
-                if gen.twin_module and path.startswith(gen.pkg + ".core"):
-                    da = None       # F4 (module variant) clobbers this module's inspected tree; the direct comparison reports it
                 if out[0] != abstract_text(inspect.cleandoc(raw)):
                     ctx.tie_failure("oracle", "cleandoc(model) vs inspect.cleandoc", {"model": out[0], "cpython": inspect.cleandoc(raw)}, {"raw": raw})
                 if sa is not None and sa.get("doc") is not None and out[1] != abstract_text(sa["doc"]):
@@ -1080,6 +1337,40 @@ def check_package(ctx, gen, root, st, dy, a, b):
                     ctx.tie_failure("correspondence", "dynamic_doc(model) vs inspected Docstring.value", {"model": out[2], "impl": da["doc"]}, {"raw": raw, "path": path})
                 ctx.observe("doc_shape", f"first_blank={out[3]} differ={int(out[1] != out[2])}")
             ask(["doc", doc_abstract(lines)], cb_doc)
+        if form in ("selfimport", "builtinimport"):
+            def cb_imps(out, path=path, sa=sa, da=da, form=form):
+                ctx.count("import_stmt_ties")
+                ctx.observe("import_stmt", f"{form} binds_ancestor={out[3]}")
+                if out[0] != path.rsplit(".", 1)[1] or norm_member(out[1]) != enc_member_impl(sa):
+                    ctx.tie_failure("correspondence", "visit_import(model) vs griffe static member", {"model": out[:2], "impl": enc_member_impl(sa)}, {"path": path})
+                if norm_member(out[2]) != enc_member_impl(da):
+                    ctx.tie_failure("correspondence", "inspect_import(model) vs griffe inspected member", {"model": out[2], "impl": enc_member_impl(da)}, {"path": path})
+            ask(import_query(gen, path, meta), cb_imps)
+            continue
+        if isinstance(form, list) and form[0] in ("assigned", "annotated"):
+            ctx.observe("defform", "/".join(str(x) if not isinstance(x, list) else x[0] for x in form))
+            holder = live_object(path.rsplit(".", 1)[0])
+            nm = path.rsplit(".", 1)[1]
+            bound_live = holder is not None and nm in vars(holder)
+
+            def cb_x(out, path=path, form=form, sa=sa, da=da, holder=holder, nm=nm, bound_live=bound_live):
+                ctx.count("xform_ties")
+                ctx.observe("xform", f"{form[0]}/{form[1]} bound={out[0]} F9={out[3]} F10={out[4]}")
+                if out[0] != (1 if bound_live else 0):
+                    ctx.tie_failure("oracle", "x_bound(model) vs the name being bound at runtime", {"model": out[0], "cpython": bound_live}, {"path": path, "form": form})
+                if bound_live:
+                    raw = getattr(holder, nm)
+                    prims, _ = prims_of(holder, nm, raw)
+                    if sorted(out[5]) != prims:
+                        ctx.tie_failure("oracle", "observe(model) vs introspection of the assigned value", {"model": sorted(out[5]), "cpython": prims}, {"path": path, "form": form})
+                    if form[0] == "assigned" and pyobj_of(vars(holder)[nm]) != form[2]:
+                        ctx.tie_failure("oracle", "generated value kind vs the live object", {"generator": form[2], "cpython": pyobj_of(vars(holder)[nm])}, {"path": path})
+                if norm_member(out[1]) != enc_member_impl(sa):
+                    ctx.tie_failure("correspondence", "visit_attribute(model) vs griffe static member", {"model": out[1], "impl": enc_member_impl(sa)}, {"path": path, "form": form})
+                if norm_member(out[2]) != enc_member_impl(da):
+                    ctx.tie_failure("correspondence", "inspector_xmember(model) vs griffe inspected member", {"model": out[2], "impl": enc_member_impl(da)}, {"path": path, "form": form})
+            ask(xform_query(gen, path, form), cb_x)
+            continue
         if not isinstance(form, list):
             continue
         ctx.observe("defform", "/".join(str(x) for x in form))
@@ -1089,6 +1380,13 @@ def check_package(ctx, gen, root, st, dy, a, b):
             ctx.tie_failure("harness", "live_lookup", f"{path} not found at runtime", {"path": path})
             continue
         prims, _ = prims_of(parent, name, raw)
+        po = pyobj_of(vars(parent).get(name))
+        if po is not None:
+            def cb_obs(out, path=path, prims=prims, po=po):
+                ctx.count("obs_ties")
+                if sorted(out) != prims:
+                    ctx.tie_failure("oracle", "observe(model) vs inspect.* / callable / isinstance on the live member", {"model": sorted(out), "cpython": prims, "pyobj": po}, {"path": path})
+            ask(["obs", 1 if inspect.isclass(parent) else 0, po], cb_obs)
 
         def cb_form(out, path=path, form=form, prims=prims, sa=sa, da=da, meta=meta):
             ctx.count("form_ties")
@@ -1128,14 +1426,7 @@ def check_package(ctx, gen, root, st, dy, a, b):
                 ctx.tie_failure("correspondence", "pick_member(model) vs ObjectNode._pick_member", {"model": out, "impl": impl_pick}, {"path": path})
         ask(pick_q, cb_pick)
 
-        _, unwrapped = prims_of(parent, name, raw)
-        child_mod = module_path_of(unwrapped, module)
-        parent_mod = module_path_of(parent, module)
-        fallback = node.path[len(node.module.path) + 1:]
-        qual = getattr(unwrapped, "__qualname__", fallback)
-        env = [1, opt_path(child_mod), opt_path(parent_mod), qual.split(".") if isinstance(qual, str) else [], builtins_list]
-        cur = path.rsplit(".", 1)[0]
-        has_file = 1 if hasattr(unwrapped, "__file__") else 0
+        child_q, _ = child_query(gen, path)
 
         def cb_child(out, path=path, node=node, da=da, form=form, picked=picked):
             ctx.count("child_ties")
@@ -1145,12 +1436,10 @@ def check_package(ctx, gen, root, st, dy, a, b):
             got = [] if impl_t is None else [impl_t.split(".")]
             if out[0] != got:
                 ctx.tie_failure("correspondence", "alias_target_path(model) vs ObjectNode.alias_target_path", {"model": out[0], "impl": impl_t}, {"path": path})
-            if gen.twin_module and path.startswith(gen.pkg + ".core"):
-                return      # F4 (module variant) clobbers this module's inspected tree; the direct comparison reports it
             if norm_member(out[1]) != enc_member_impl(da):
                 ctx.tie_failure("correspondence", "inspect_child(model) vs griffe inspected member", {"model": out[1], "impl": enc_member_impl(da)}, {"path": path, "form": form, "pkg": gen.pkg, "files": gen.files})
             ctx.observe("inspect_child", out[1][0] if out[1][0] != "obj" else out[1][1])
-        ask(["child", prims, env, cur.split("."), name, has_file], cb_child)
+        ask(child_q, cb_child)
 
         if form[0] == "class" and "bases" in meta:
             specs = meta["bases"]
@@ -1165,8 +1454,6 @@ def check_package(ctx, gen, root, st, dy, a, b):
                     ctx.tie_failure("oracle", "cpython_bases(model) vs cls.__bases__", {"model": out[2], "cpython": live}, {"path": path, "bases": [sp["src"] for sp in specs]})
                 if sa is not None and sa["t"] == "class" and out[0] != sa["bases"]:
                     ctx.tie_failure("correspondence", "static_bases(model) vs the visited Class.bases (resolved)", {"model": out[0], "impl": sa["bases"]}, {"path": path, "bases": [sp["src"] for sp in specs]})
-                if gen.twin_module and path.startswith(gen.pkg + ".core"):
-                    return      # F4 (module variant) clobbers this module's inspected tree
                 if da is not None and da["t"] == "class" and out[1] != [da["bases"]]:
                     ctx.tie_failure("correspondence", "inspector_bases(model) vs the inspected Class.bases", {"model": out[1], "impl": da["bases"]}, {"path": path, "bases": [sp["src"] for sp in specs]})
             ask(bases_query(gen, meta), cb_bases)
@@ -1203,10 +1490,13 @@ def check_package(ctx, gen, root, st, dy, a, b):
             h = chain[0]
             minfo = [h["mod"].split("."), 1 if h["init"] else 0]
 
-            def cb_rel(out, path=path, h=h, sa=sa):
+            def cb_rel(out, path=path, h=h, sa=sa, meta=meta, form=form):
                 ctx.count("rel_ties")
                 # (a name that is also a submodule is overwritten by the loader: the agent's own member is not observable)
-                if path not in gen.files_mods and norm_member(out[1]) != enc_member_impl(sa):
+                # (a module brought by two wildcard imports keeps the alias of the first one: expand_wildcards does not replace an
+                #  alias to a module by another alias to the same module; the final targets are compared by the chain tie)
+                twice = meta.get("star") and form[2] == "module" and sa is not None and sa["t"] == "alias"
+                if path not in gen.files_mods and not twice and norm_member(out[1]) != enc_member_impl(sa):
                     ctx.tie_failure("correspondence", "visit_importfrom(model) vs griffe static member", {"model": out[1], "impl": enc_member_impl(sa)}, {"path": path, "import": h["imp"]})
                 level, modparts, nm, _ = h["imp"]
                 package = h["mod"] if h["init"] else h["mod"].rsplit(".", 1)[0]
@@ -1253,6 +1543,35 @@ def check_package(ctx, gen, root, st, dy, a, b):
                     ctx.tie_failure("oracle", "inspect_signature(model) vs inspect.signature", {"model": out[2], "cpython": oracle_signature(fn)}, {"sig": meta["sig"]})
             ask(["params", args], cb_params)
 
+    # wildcard imports: which names they bring
+    for path, meta in gen.meta.items():
+        for star in (meta.get("stars") or []) if meta.get("form") == "module" else []:
+            src = star["src"]
+            try:
+                st_src = st.modules_collection[src]
+                live_src = sys.modules[src]
+            except KeyError:
+                ctx.tie_failure("harness", "wildcard source not loaded", src)
+                continue
+            members = [[m.name, 1 if m.runtime else 0, 1 if m.is_alias else 0, 1 if (not m.is_alias and m.is_module) else 0,
+                        1 if m.is_imported else 0] for m in st_src.members.values()]
+            impl_names = [m.name for m in st_src.members.values() if m.is_wildcard_exposed]
+            all_ = getattr(live_src, "__all__", None)
+            nsx = {}
+            exec(compile(f"from {src} import *", "<star>", "exec", dont_inherit=True), nsx)
+            cpy_names = sorted(k for k in nsx if k != "__builtins__")
+
+            def cb_star(out, src=src, impl_names=impl_names, cpy_names=cpy_names, star=star, path=path):
+                ctx.count("star_ties")
+                ctx.observe("star", f"all={int(getattr(sys.modules[src], '__all__', None) is not None)} names={min(len(cpy_names), 9)} static_only={len(set(impl_names) - set(cpy_names))}")
+                if out[0] != impl_names:
+                    ctx.tie_failure("correspondence", "griffe_star(model) vs is_wildcard_exposed on the source's members", {"model": out[0], "impl": impl_names}, {"module": path, "source": src})
+                if not out[1] or sorted(out[1][0]) != cpy_names:
+                    ctx.tie_failure("oracle", "cpython_star(model) vs executing the import statement", {"model": out[1], "cpython": cpy_names}, {"module": path, "source": src})
+                if sorted(star["names"]) != cpy_names:
+                    ctx.tie_failure("oracle", "generated wildcard names vs executing the import statement", {"generator": sorted(star["names"]), "cpython": cpy_names}, {"module": path, "source": src})
+            ask(["star", [] if all_ is None else [list(all_)], members, list(vars(live_src))], cb_star)
+
     outs = ctx.model([x for x, _ in q])
     for (query, cb), out in zip(q, outs):
         if out == ["bad-input"]:
@@ -1293,11 +1612,8 @@ def run_packages(ctx, n, label):
                 finally:
                     sys.path.remove(str(root))
                 if importable:
-                    # F4, module variant inside a (nested) class body: leaving the classes walks up from the replacement Module to the
-                    # package and then to None, and the next member is added to None
-                    fid = "C17-F4" if (gen.twin_module_in_class and isinstance(e, AttributeError) and "NoneType" in str(e)) else None
-                    ctx.observe("difference", f"load-raised:{fid or 'UNEXPLAINED'}")
-                    ctx.property_failure({"files": gen.files, "pkg": pkg}, {"load raised": f"{type(e).__name__}: {e}"}, finding=fid)
+                    ctx.observe("difference", "load-raised:UNEXPLAINED")
+                    ctx.property_failure({"files": gen.files, "pkg": pkg}, {"load raised": f"{type(e).__name__}: {e}"})
                 else:
                     ctx.count("generated_package_not_importable")
                 continue
@@ -1308,7 +1624,7 @@ def run_packages(ctx, n, label):
             ctx.count("packages")
             ctx.count("members_compared", sum(1 for m in gen.meta.values() if isinstance(m.get("form"), list)))
             for d in diffs:
-                fid = classify(d, gen, ctx)
+                fid = classify(d, gen, ctx, b)
                 ctx.observe("difference", f"{d[1]}:{fid or 'UNEXPLAINED'}")
                 ctx.property_failure({"files": gen.files, "pkg": pkg, "member": d[0]}, {"what": d[1], "static": d[2], "dynamic": d[3]}, finding=fid)
             if ctx.driver is not None:
@@ -1399,6 +1715,7 @@ def check_zoo(ctx):
     from _griffe.models import Class, Module
     mod, items = build_zoo()
     queries, impl = [], []
+    obs_q, obs_want = [], []
     for parent, name in items:
         raw = getattr(parent, name)
         prims, _ = prims_of(parent, name, raw)
@@ -1421,6 +1738,15 @@ def check_zoo(ctx):
             got = ["raised", type(e).__name__]
         queries.append(["kind", prims])
         impl.append((f"{getattr(parent, '__name__', parent)}.{name}", prims, kind, got))
+        po = pyobj_of(vars(parent)[name]) if name in vars(parent) and parent is not type else None     # (type's own metatype is type)
+        if po is not None:
+            obs_q.append(["obs", 1 if inspect.isclass(parent) else 0, po])
+            obs_want.append((f"{getattr(parent, '__name__', parent)}.{name}", prims, po))
+    for (label, prims, po), out in zip(obs_want, ctx.model(obs_q)):
+        ctx.count("zoo_obs_cases")
+        ctx.observe("zoo_pyobj", po[0])
+        if sorted(out) != prims:
+            ctx.tie_failure("oracle", "observe(model) vs inspect.* / callable / isinstance (zoo)", {"model": sorted(out), "cpython": prims, "pyobj": po}, {"object": label})
     outs = ctx.model(queries)
     for (label, prims, kind, got), out in zip(impl, outs):
         ctx.count("zoo_cases")
@@ -1570,6 +1896,78 @@ def check_docstrings(ctx, n):
             ctx.property_failure({"docstring": raw}, {"static": st, "dynamic": dyn})
 
 
+def check_binders(ctx, n):
+    """Small packages whose module body interleaves definitions and wildcard imports of two source modules: which statement a name
+    ends up bound by -- model (griffe_binder, cpy_binder) vs the statically loaded tree vs the imported module."""
+    import griffe
+    root = ctx.scratch / "binders"
+    root.mkdir(parents=True, exist_ok=True)
+    pool = ["a", "b", "c", "d"]
+    sys.path.insert(0, str(root))
+    try:
+        for i in range(n):
+            pkg = f"c17b_{ctx.seed}_{i}"
+            srcs = {}
+            files = {f"{pkg}/__init__.py": ""}
+            for sname in ("s1", "s2"):
+                names = ctx.rng.sample(pool, ctx.rng.randint(1, 3)) + (["_p"] if ctx.rng.random() < 0.3 else [])
+                all_ = sorted(ctx.rng.sample(names, ctx.rng.randint(1, len(names)))) if ctx.rng.random() < 0.3 else None
+                files[f"{pkg}/{sname}.py"] = "".join(f"def {x}(): return '{sname}'\n" for x in names) + (f"__all__ = {all_!r}\n" if all_ is not None else "")
+                srcs[sname] = all_ if all_ is not None else [x for x in names if not x.startswith("_")]
+            events, lines = [], []
+            for k in range(ctx.rng.randint(2, 6)):
+                if ctx.rng.random() < 0.5:
+                    sname = ctx.rng.choice(["s1", "s2"])
+                    lines.append(ctx.rng.choice([f"from .{sname} import *", f"from {pkg}.{sname} import *"]))
+                    events.append(["star", srcs[sname], sname])
+                else:
+                    x = ctx.rng.choice(pool)
+                    lines.append(f"def {x}(): return {k}")
+                    events.append(["bind", x])
+            files[f"{pkg}/m.py"] = "\n".join(lines) + "\n"
+            for rel, text in files.items():
+                q = root / rel
+                q.parent.mkdir(parents=True, exist_ok=True)
+                q.write_text(text)
+            ctx.case({"files": files}, any(e[0] == "star" for e in events) and any(e[0] == "bind" for e in events))
+            try:
+                st = griffe.load(pkg, search_paths=[str(root)], allow_inspection=False)
+                live = importlib.import_module(f"{pkg}.m")
+            except Exception as e:  # noqa: BLE001
+                ctx.tie_failure("harness", "binder package", f"{type(e).__name__}: {e}", {"files": files})
+                purge_modules(pkg)
+                continue
+            outs = ctx.model([["binder", x, [e[:2] for e in events]] for x in pool]) if ctx.driver is not None else [None] * len(pool)
+            for x, out in zip(pool, outs):
+                ctx.count("binder_cases")
+                origin = lambda idx: None if idx is None else (("own", idx) if events[idx][0] == "bind" else ("src", events[idx][2]))
+                m = st["m"].members.get(x)
+                if m is None:
+                    s_origin = None
+                elif m.is_alias:
+                    s_origin = ("src", m.target_path.split(".")[-2])
+                    s_index = m.alias_lineno - 1
+                else:
+                    s_origin = ("own", m.lineno - 1)
+                    s_index = m.lineno - 1
+                f = vars(live).get(x)
+                r_origin = None if f is None else (("own", f()) if f.__module__ == f"{pkg}.m" else ("src", f()))
+                ctx.observe("binder", "unbound" if r_origin is None else r_origin[0])
+                if s_origin != r_origin:
+                    ctx.property_failure({"files": files, "pkg": pkg, "member": f"{pkg}.m.{x}"}, {"what": "wildcard-binder", "static": s_origin, "dynamic": r_origin})
+                if out is None:
+                    continue
+                g = out[0][0] if out[0] else None
+                c = out[1][0] if out[1] else None
+                if origin(c) != r_origin:
+                    ctx.tie_failure("oracle", "cpy_binder(model) vs the imported module", {"model": origin(c), "cpython": r_origin}, {"files": files, "name": x})
+                if origin(g) != s_origin or (g is not None and events[g][0] == "bind" and g != s_index):
+                    ctx.tie_failure("correspondence", "griffe_binder(model) vs the loaded member", {"model": [g, origin(g)], "impl": s_origin}, {"files": files, "name": x})
+            purge_modules(pkg)
+    finally:
+        sys.path.remove(str(root))
+
+
 # ------------------------------------------------------------------------------------------------------------------
 # witnesses of the known findings, replayed on the implementation every run
 
@@ -1579,6 +1977,7 @@ WITNESS_FILES = {
     "_a.py": "def tw(): ...\n",
     "a.py": "from {pkg}._a import tw\n",
     "gen.py": "from typing import Generic, List, TypeVar\nT = TypeVar('T')\nclass G(Generic[T]): ...\nclass L(List[int]): ...\nclass K(Generic[T], G[T]): ...\n",
+    "w9.py": "import functools\nimport typing\nimport _io\nimport {pkg}.w9 as me\ndef h(a): ...\nlam = lambda a: a\npart = functools.partial(h)\nx: int\nclass K:\n    c: typing.ClassVar[int]\n",
 }
 
 
@@ -1592,7 +1991,10 @@ def replay_witnesses(ctx):
         st, dy = load_both(pkg, root)
         seen = {
             "C17-F4": st["a"].members["tw"].is_alias and not dy["a"].members["tw"].is_alias,
-            "C17-F6": pkg in st.members and pkg not in dy.members,
+            "C17-F6": pkg in st.members and pkg not in dy.members and "me" in st["w9"].members and "me" not in dy["w9"].members,
+            "C17-F9": st["w9.lam"].kind.value == "attribute" and dy["w9.lam"].kind.value == "function" and st["w9.part"].kind.value == "attribute"
+                      and dy["w9"].members["part"].is_alias and dy["w9"].members["part"].target_path == "functools.part",
+            "C17-F10": "x" in st["w9"].members and "x" not in dy["w9"].members and "c" in st["w9.K"].members and "c" not in dy["w9.K"].members,
             "C17-F8": ([base_path(st["gen.L"], x) for x in st["gen.L"].bases], [str(x) for x in dy["gen.L"].bases],
                        [base_path(st["gen.K"], x) for x in st["gen.K"].bases], [str(x) for x in dy["gen.K"].bases])
                       == (["typing.List"], ["builtins.list", "typing.Generic"], ["typing.Generic", f"{pkg}.gen.G"], [f"{pkg}.gen.G"]),
@@ -1644,6 +2046,7 @@ def explore(ctx):
     check_relative_grid(ctx)
     check_same_components(ctx, ctx.budget(400, 4000))
     check_docstrings(ctx, ctx.budget(600, 6000))
+    check_binders(ctx, ctx.budget(150, 1200))
     run_packages(ctx, ctx.budget(110, 900), "q" if ctx.quick else "t")
     if not ctx.quick:
         sample = [["form", f] for f in ALL_FORMS] + [["doc", [[0, []], [2, [1]], [0, [2]]]], ["samecomp", ["a", "_b"], ["_a", "b"]],
